@@ -124,7 +124,9 @@ static std::vector<std::vector<uint32_t>> inputs(bool thorough) {
             }
         from = to;
     }
-    int maxn = thorough ? 24 : 14;
+    // beyond 16 elements: libstdc++'s std::sort is an insertion sort (stable in effect) up to 16 elements, so an unstable
+    // fallback inside the sort is invisible below that size
+    int maxn = thorough ? 40 : 24;
     for (int n = small + 1; n <= maxn; ++n) {
         std::vector<uint32_t> w(n);
         for (int i = 0; i < n; ++i) w[i] = (uint32_t)(i * 4 / n);  // sorted, 4 keys
